@@ -267,7 +267,14 @@ def execute(scen):
                 facts = {"direction": "upload", "len": L, "over_server_threshold": over, "via": op}
                 ctx = f"{op} of {L} bytes ({len(xml)} chars on the wire) frag {net['frag']}"
                 if op == "up_api":
+                    up_pipe = sim.net.find("cl0.ctl")[0].out
+                    w0 = up_pipe.written
                     res = apply_step(stack, {"op": "c_write", "c": 0, "dev": "CAM", "vec": "IMG", "els": [["B0", {"blob_hex": data.hex(), "format": fmt}]]})
+                    sim.loop.step_iterations(3)  # let the send task hand the message to the transport
+                    wire = up_pipe.written - w0  # what the client really put on the wire (timestamp, declaration, escaping included)
+                    over = wire > 2048
+                    facts["over_server_threshold"] = over
+                    ctx = f"{op} of {L} bytes ({wire} chars on the wire) frag {net['frag']}"
                     if res.error:
                         viol.append({"clause": "C08.up", "detail": f"client API raised {res.error}; {ctx}", "facts": facts})
                         break
